@@ -37,6 +37,10 @@ def main():
     assert sh("git -C %s worktree add -q --detach %s HEAD" % (REPO, wt)).returncode == 0
     try:
         build = "gcc -w -I include %s/demo.c src/avtp/*.c src/avtp/*/*.c src/avtp/*/*/*.c -o /tmp/seed_demo_%s -lm" % (dst, name)
+        if meta.get("build"):
+            # the agent's own build line; the demo is built as ./demo inside the worktree.  A demo
+            # that does not COMPILE with the change counts as failing (header properties).
+            build = "rm -f demo; " + meta["build"].replace("DEMO_C", "%s/demo.c" % dst) + " && cp demo /tmp/seed_demo_%s" % name
         r0 = sh(build, cwd=wt)
         d0 = sh("/tmp/seed_demo_%s" % name, cwd=wt) if r0.returncode == 0 else None
         ran.append("demo on unmodified tree: exit %s" % (d0.returncode if d0 else "build failed: " + r0.stderr[-300:]))
@@ -45,6 +49,9 @@ def main():
         r1 = sh(build, cwd=wt)
         d1 = sh("/tmp/seed_demo_%s" % name, cwd=wt) if r1.returncode == 0 else None
         ran.append("demo with patch: exit %s" % (d1.returncode if d1 else "build failed"))
+        if d1 is None and meta.get("build") and meta.get("compile_failure_is_the_demo"):
+            class _F: returncode = 1
+            d1 = _F()
         t = sh("cmake -G Ninja -S . -B _build -DUNIT_TESTING=ON >/dev/null && cmake --build _build 2>&1 | grep -c warning; ctest --test-dir _build -j8 2>&1 | tail -3", cwd=wt)
         tests_ok = "100% tests passed" in t.stdout
         ran.append("test suite with patch: %s" % ("192 tests pass" if tests_ok else "FAILS: " + t.stdout[-300:]))
